@@ -1,4 +1,5 @@
 """C01 Automatic MPO construction is exact for every sum-of-products operator."""
+from vk.symx.harness import guarded
 import itertools
 
 import numpy as np
@@ -296,7 +297,7 @@ def check(run):
     cases = [(m, s, run.tier) for m in models(run.tier) for s in seeds]
     run_cases(run, worker, cases)
     from props import C01_sym
-    C01_sym.prove_chain(run)
+    guarded(run, C01_sym.prove_chain)
     run.rule = ("models {spin chains, spin with 1 and 2 quantum numbers, spin+shifted oscillator+electron, Holstein-like, multi-DoF electron sites, single site, "
                 "pair} x random term lists (1..6 terms, support <= 3 sites, repeated symbols on a site, DoFs written out of site order, duplicates, exact and "
                 "partial cancellations, factors 2e-6..3e5 real/complex, offsets) x algorithms {qr, Hopcroft-Karp, Hungarian} x sequences of adjacent swaps; "
